@@ -82,6 +82,8 @@ def blocks(prog, run):
             continue
         for v, n in tups:
             fr, sy = v.items
+            if isinstance(sy, blockdom.Asm):
+                sy = it.assembled(sy, pre.node)      # allocated first, filled block of rows by block of rows
             if isinstance(fr, blockdom.Freq):
                 ob("R-grid", "freq", True, "freq is element 0 of the estimator's return", n)
             else:
@@ -189,19 +191,51 @@ def params(prog, run):
     if not per:
         run.ob("R-param", est.qual, "csd(per)", None, "no csd call with fs= (periodogram branch) found: the estimator is written another way, its options are not read", witness="missing", file=fe)
     for c in per:
-        nov = astq.kwarg(c, "noverlap")
+        kws, kcomplete = astq.call_keywords(prog, est, c)
+        nov = kws.get("noverlap")
+        if isinstance(nov, ast.IfExp) and isinstance(nov.orelse, ast.Name) and nov.orelse.id == astq.CALLEE_DEFAULT:
+            # the overlap is handed over only under a test: a truth test drops pov = 0 (no overlap) - scipy then uses nperseg // 2
+            if not (isinstance(nov.test, ast.Compare) and isinstance(nov.test.ops[0], (ast.IsNot, ast.Is))):
+                run.ob("R-param", est.qual, "pov->noverlap", False,
+                       f"`noverlap` is handed to csd only when `{astq.src(nov.test, 40)}` is truthy: with pov = 0 (no overlap) it is left out and scipy's default "
+                       f"noverlap = nperseg // 2 (50 %) is used", witness="noverlap only when truthy", file=fe, node=c)
+                nov = None
+                kws = dict(kws, noverlap=None)
+            else:
+                nov = nov.body
+        if nov is None and "noverlap" not in kws and not kcomplete:
+            pass
         x = astq.expand(est, nov) if nov is not None else None
         from .. import symidx
         from ..poly import P
         v = symidx.SymEval(prog, est).ev(nov) if nov is not None else None
         ok = v is not None and v == P.s("nxseg") * P.s("pov")
+        if not ok and (v is None or any(s_ not in ("nxseg", "pov") for k_ in v.t for s_, _e in k_)):
+            # written with names that were not resolved to the estimator's own parameters: follow them as data (a local alias of pov)
+            dep_p = astq._depends_on(est.node, {"pov"}) if x is not None else set()
+            dep_n = astq._depends_on(est.node, {"nxseg"}) if x is not None else set()
+            nm_ = {y.id for y in ast.walk(x)} if x is not None and False else ({y.id for y in ast.walk(x) if isinstance(y, ast.Name)} if x is not None else set())
+            ok = None if (nm_ & dep_p and nm_ & dep_n) or x is None or v is None else ok
+            if ok is False and nm_ and not (nm_ & dep_p):
+                ok = False          # nothing of pov in it: the overlap the user set does not arrive
+            elif ok is False:
+                ok = None
         run.ob("R-param", est.qual, "pov->noverlap", ok, f"noverlap = `{astq.src(x) if x is not None else None}` = {v!r} (expected nxseg*pov)",
                witness=astq.src(x, 60) if x is not None else "missing", file=fe, node=c)
-        nps = astq.kwarg(c, "nperseg")
+        nps = kws.get("nperseg")
         ok = nps is not None and _is_param(est, nps, "nxseg")
+        if not ok and nps is None and not kcomplete:
+            ok = None               # keywords spread from a mapping that could not be written out
+        elif not ok and nps is not None:
+            # a local name for the segment length (nxseg = int(nxseg), an alias made by a helper): the parameter as data
+            x_ = astq.strip_coercion(astq.expand(est, nps))
+            if isinstance(x_, ast.Name) and x_.id in astq._depends_on(est.node, {"nxseg"}, data_only=True) and not isinstance(astq.expr_at(est, c, nps), ast.BinOp):
+                ok = True
+            elif not isinstance(x_, (ast.Constant, ast.BinOp)):
+                ok = None
         run.ob("R-param", est.qual, "nxseg->nperseg", ok, f"nperseg = `{astq.src(nps) if nps is not None else None}`",
                witness=astq.src(nps, 60) if nps is not None else "missing", file=fe, node=c)
-        w = astq.kwarg(c, "window")
+        w = kws.get("window")
         if w is not None and not isinstance(w, ast.Constant):
             w = astq.expand(est, w)
         ok = isinstance(w, ast.Constant) and w.value in ("hann", "hanning")
@@ -210,7 +244,7 @@ def params(prog, run):
             ok = astq.resolves_by_default(prog, est, w, lambda v_: v_ in ("hann", "hanning"))
         run.ob("R-param", est.qual, "window", ok, f"window = `{astq.src(w) if w is not None else 'default (hann)'}`" , witness=astq.src(w, 40) if w is not None else "default", file=fe, node=c) if w is not None else \
             run.ob("R-param", est.qual, "window", True, "window default of scipy.signal.csd is 'hann'", file=fe, node=c)
-        fsv = astq.kwarg(c, "fs")
+        fsv = kws.get("fs")
         if fsv is None:
             run.ob("R-param", est.qual, "dt->fs", False, "the periodogram's csd call gets no fs= (frequencies in cycles per sample)", witness="missing", file=fe, node=c)
             continue
